@@ -30,7 +30,9 @@ def gen_cases(ctx):
         s["thickness"] = 1
         # two blocks of EQUAL extent at different positions (a sharded indexed update must not be keyed by extent only) and a third one
         s["blocks"] = [{"box": [[2, 6], [1, 5], [3, 7]], "eps": 2.25}, {"box": [[0, 4], [3, 7], [0, 4]], "eps": 9.0},
-                       {"box": [[5, 8], [0, 2], [6, 8]], "eps": [2.0, 3.0, 4.0]}]
+                       {"box": [[5, 8], [0, 2], [6, 8]], "eps": [2.0, 3.0, 4.0]},
+                       # a top cladding slab and a block in the (+x,+y,+z) corner: regions that reach the upper faces without starting at 0
+                       {"box": [[0, 8], [0, 8], [7, 8]], "eps": 1.5, "order": -1}, {"box": [[6, 8], [5, 8], [4, 8]], "eps": 6.0}]
         s["sources"] = [{"kind": "dipole", "cell": [3, 4, 2], "pol": ctx.rng.randint(0, 2)}]
         s["detectors"] = [{"kind": "field", "box": [[1, 7], [2, 6], [1, 5]], "name": "fd", "opts": {"exact_interpolation": True}},
                           {"kind": "phasor", "box": [[2, 4], [2, 6], [3, 7]], "name": "ph"}]
